@@ -1,32 +1,176 @@
-//! Thread-local tracing subscribers used as a per-run knob (0 none, 1 fmt-to-sink, 2 OTel SDK).
+//! Tracing subscribers as a per-run knob (0 none, 1 fmt-to-sink, 2 OpenTelemetry SDK layer).
+//!
+//! tracing keeps process-global state (the callsite interest cache and the maximum level) that is
+//! rebuilt whenever a dispatcher is created or dropped. With 16 worker threads creating scoped
+//! dispatchers concurrently that state can momentarily disagree with a thread's own dispatcher
+//! (observed: the server's RPC span created disabled although an OpenTelemetry layer was installed
+//! on that thread, in one run out of ~10^5 — not reproducible single-threaded). So exactly one
+//! dispatcher is registered, once, before any worker starts: a `Switch` that holds all three
+//! behaviours and picks one per thread from a thread-local set for the duration of a run.
 
+use std::any::TypeId;
+use std::cell::Cell;
+use tracing::span::{Attributes, Id, Record};
+use tracing::subscriber::Interest;
+use tracing::{Event, Metadata, Subscriber};
 use tracing_subscriber::layer::SubscriberExt;
 
-pub struct Guard {
-    _g: Option<tracing::subscriber::DefaultGuard>,
-    _p: Option<opentelemetry_sdk::trace::TracerProvider>,
+thread_local! {
+    static KIND: Cell<u8> = const { Cell::new(0) };
 }
 
-pub fn install(kind: u8) -> Guard {
-    match kind {
-        1 => {
-            let sub = tracing_subscriber::fmt()
-                .with_max_level(tracing::Level::TRACE)
-                .with_writer(std::io::sink)
-                .finish();
-            Guard { _g: Some(tracing::subscriber::set_default(sub)), _p: None }
-        }
-        2 => {
-            use opentelemetry::trace::TracerProvider as _;
-            let provider = opentelemetry_sdk::trace::TracerProvider::builder()
-                .with_config(opentelemetry_sdk::trace::Config::default().with_id_generator(SimIds))
-                .build();
-            let tracer = provider.tracer("sim");
-            let sub = tracing_subscriber::registry().with(tracing_opentelemetry::layer().with_tracer(tracer));
-            Guard { _g: Some(tracing::subscriber::set_default(sub)), _p: Some(provider) }
-        }
-        _ => Guard { _g: None, _p: None },
+pub struct Guard {
+    prev: u8,
+}
+
+impl Drop for Guard {
+    fn drop(&mut self) {
+        KIND.with(|k| k.set(self.prev));
     }
+}
+
+/// Selects the subscriber behaviour of this thread until the guard is dropped.
+pub fn install(kind: u8) -> Guard {
+    let prev = KIND.with(|k| k.replace(if kind <= 2 { kind } else { 0 }));
+    Guard { prev }
+}
+
+fn kind() -> u8 {
+    KIND.with(|k| k.get())
+}
+
+type FmtSub = tracing_subscriber::fmt::Subscriber<
+    tracing_subscriber::fmt::format::DefaultFields,
+    tracing_subscriber::fmt::format::Format,
+    tracing::level_filters::LevelFilter,
+    fn() -> std::io::Sink,
+>;
+type OtelSub = tracing_subscriber::layer::Layered<
+    tracing_opentelemetry::OpenTelemetryLayer<tracing_subscriber::Registry, opentelemetry_sdk::trace::Tracer>,
+    tracing_subscriber::Registry,
+>;
+
+struct Switch {
+    fmt: FmtSub,
+    otel: OtelSub,
+    _provider: opentelemetry_sdk::trace::TracerProvider,
+}
+
+impl Subscriber for Switch {
+    fn register_callsite(&self, _m: &'static Metadata<'static>) -> Interest {
+        // always ask `enabled`, which consults the calling thread's kind
+        Interest::sometimes()
+    }
+    fn enabled(&self, m: &Metadata<'_>) -> bool {
+        match kind() {
+            1 => self.fmt.enabled(m),
+            2 => self.otel.enabled(m),
+            _ => false,
+        }
+    }
+    fn max_level_hint(&self) -> Option<tracing::level_filters::LevelFilter> {
+        Some(tracing::level_filters::LevelFilter::TRACE)
+    }
+    fn new_span(&self, a: &Attributes<'_>) -> Id {
+        match kind() {
+            1 => self.fmt.new_span(a),
+            2 => self.otel.new_span(a),
+            _ => Id::from_u64(u64::MAX),
+        }
+    }
+    fn record(&self, s: &Id, v: &Record<'_>) {
+        match kind() {
+            1 => self.fmt.record(s, v),
+            2 => self.otel.record(s, v),
+            _ => {}
+        }
+    }
+    fn record_follows_from(&self, s: &Id, f: &Id) {
+        match kind() {
+            1 => self.fmt.record_follows_from(s, f),
+            2 => self.otel.record_follows_from(s, f),
+            _ => {}
+        }
+    }
+    fn event_enabled(&self, e: &Event<'_>) -> bool {
+        match kind() {
+            1 => self.fmt.event_enabled(e),
+            2 => self.otel.event_enabled(e),
+            _ => false,
+        }
+    }
+    fn event(&self, e: &Event<'_>) {
+        match kind() {
+            1 => self.fmt.event(e),
+            2 => self.otel.event(e),
+            _ => {}
+        }
+    }
+    fn enter(&self, s: &Id) {
+        match kind() {
+            1 => self.fmt.enter(s),
+            2 => self.otel.enter(s),
+            _ => {}
+        }
+    }
+    fn exit(&self, s: &Id) {
+        match kind() {
+            1 => self.fmt.exit(s),
+            2 => self.otel.exit(s),
+            _ => {}
+        }
+    }
+    fn clone_span(&self, s: &Id) -> Id {
+        match kind() {
+            1 => self.fmt.clone_span(s),
+            2 => self.otel.clone_span(s),
+            _ => s.clone(),
+        }
+    }
+    fn try_close(&self, s: Id) -> bool {
+        match kind() {
+            1 => self.fmt.try_close(s),
+            2 => self.otel.try_close(s),
+            _ => false,
+        }
+    }
+    fn current_span(&self) -> tracing_core::span::Current {
+        match kind() {
+            1 => self.fmt.current_span(),
+            2 => self.otel.current_span(),
+            _ => tracing_core::span::Current::none(),
+        }
+    }
+    unsafe fn downcast_raw(&self, id: TypeId) -> Option<*const ()> {
+        if id == TypeId::of::<Self>() {
+            return Some(self as *const Self as *const ());
+        }
+        match kind() {
+            // SAFETY: forwarded to the inner subscriber, which upholds the contract itself
+            1 => unsafe { self.fmt.downcast_raw(id) },
+            2 => unsafe { self.otel.downcast_raw(id) },
+            _ => None,
+        }
+    }
+}
+
+fn sink() -> std::io::Sink {
+    std::io::sink()
+}
+
+/// Registers the one process-wide dispatcher. Call once, before any worker thread starts.
+pub fn init_global() {
+    use opentelemetry::trace::TracerProvider as _;
+    let fmt: FmtSub = tracing_subscriber::fmt()
+        .with_max_level(tracing::Level::TRACE)
+        .with_writer(sink as fn() -> std::io::Sink)
+        .finish();
+    let provider = opentelemetry_sdk::trace::TracerProvider::builder()
+        .with_config(opentelemetry_sdk::trace::Config::default().with_id_generator(SimIds))
+        .build();
+    let tracer = provider.tracer("sim");
+    let otel: OtelSub = tracing_subscriber::registry().with(tracing_opentelemetry::layer().with_tracer(tracer));
+    let _ = tracing::subscriber::set_global_default(Switch { fmt, otel, _provider: provider });
 }
 
 /// OpenTelemetry ids from the simulator's deterministic id source.
